@@ -1415,6 +1415,7 @@ Witness:\n{self.witness}
                     keys.append(command)
         else:
             keys = sorted(self.sigs.keys())
+        keys += sorted(k for k in self.sigs.keys() if k not in keys)
         for key in keys:
             result += serialize_key_value(PSBT_IN_PARTIAL_SIG + key, self.sigs[key])
         if self.hash_type:
@@ -1685,7 +1686,7 @@ Witness:\n{self.witness}
                 if len(script_sig_commands) - 1 >= num_sigs:
                     break
             # make sure we have enough sigs to pass validation
-            if len(script_sig_commands) < num_sigs:
+            if len(script_sig_commands) - 1 < num_sigs:
                 raise RuntimeError("Not enough signatures provided for p2wsh")
             # add the raw redeem script as the last command for p2sh execution
             script_sig_commands.append(self.redeem_script.raw_serialize())
